@@ -149,7 +149,37 @@ class Exec(ExprMixin, CallMixin, BuiltinMixin, StmtMixin, ExecBase):
             goal = z3.Or(r, goal)
         return goal
 
+    def _frame_obligations(self, c, s, pre):
+        "every heap field / global the body changed must be declared in `modifies` (changes to newly allocated objects excepted)"
+        declared = set()
+        for m in c.modifies:
+            if m.startswith("global:") or m.startswith("ghost:") or m == "alloc":
+                declared.add(m)
+            else:
+                name, cls = (m.split("@") + [None])[:2]
+                declared.add(self.heap_key(name, cls))
+                declared.add(name)
+        for k, a in s.heap.items():
+            base = pre.heap.get(k, self.init_heap.get(k))
+            if base is not None and z3.eq(base, a):
+                continue
+            if k in declared or k.split("@")[0] in declared:
+                continue
+            if base is None:
+                continue
+            o = z3.FreshConst(z3.IntSort(), "fo")
+            goal = z3.ForAll([o], z3.Implies(z3.And(o > 0, o < pre.top), z3.Select(a, o) == z3.Select(base, o)))
+            self.oblige(s, goal, "frame", "unmodified[%s]" % k)
+        for k, v in s.glob.items():
+            b = pre.glob.get(k, self.init_heap.get("G_" + k))
+            if b is not None and b is not v and ("global:" + k) not in declared:
+                try:
+                    self.oblige(s, val_eq(v, b), "frame", "unmodified[global %s]" % k.split(".")[-1])
+                except Unsupported:
+                    pass
+
     def _normal_exit(self, c, s, entry_env, pre, result):
+        self._frame_obligations(c, s, pre)
         env = self._spec_env(c, s, entry_env, result)
         if c.result is not None and not isinstance(result, VNone):
             try:
@@ -167,6 +197,7 @@ class Exec(ExprMixin, CallMixin, BuiltinMixin, StmtMixin, ExecBase):
 
     def _raise_exit(self, c, r, entry_env, pre):
         s = r.st
+        self._frame_obligations(c, s, pre)
         env = self._spec_env(c, s, entry_env)
         matched = None
         for exc in c.raises:
